@@ -4,7 +4,7 @@ specs/Glob.tla is the reference (component-wise matching with Pattern.tla's
 matcher, the hidden-file rule, directories only before a slash, literal
 components by existence, escapes).  GlobGen enumerates every tree over five
 top-level names (plain, two characters, dot file, a name with a pattern
-character, a name ending in a backslash) with six shapes each (three for the last) (absent, file, empty directory, directory with
+character, a name ending in a backslash) with seven shapes each (three for the last) (symbolic link to a directory, absent, file, empty directory, directory with
 a file, directory with a dot file, dangling symlink) and every pattern of one
 or two components from a pool of fifteen components, with and without trailing
 slash, and computes the expected set.  The driver builds each tree in a
@@ -18,17 +18,17 @@ LEVEL = "model_checking"
 
 
 def run(R):
-    R.rule = ("cases = (tree, pattern): 6^4 x 3 = 3888 trees x 700 patterns (15 components: literal, *, ?, a*, .*, [ab]*, escaped, a?, "
+    R.rule = ("cases = (tree, pattern): 7^4 x 3 = 7203 trees x 700 patterns (15 components: literal, *, ?, a*, .*, [ab]*, escaped, a?, "
               "escaped star, *b, ??, escaped backslash, escaped letter + *, escaped period + *, trailing backslash; one or two components; with / without trailing slash; absolute and repeated-slash forms of all one-component and 36 two-component patterns); exhaustive; distinct_nontrivial = "
               "distinct (tree, pattern) pairs with a non-empty expected result")
     R.assumptions = ["patterns are evaluated in a scratch directory; absolute patterns are prefixed with its path (ROOT in the spec)",
                      "a result keeps the separators of the pattern as written (a//b gives a//b); leading repeated slashes are not generated",
                      "'.' and '..' are optional members for components that begin with a literal period",
                      "a component followed by a slash selects directories, following symbolic links (a dangling link is not a directory)"]
-    shapes = ["absent", "file", "dir", "dir+a", "dir+.c", "link"]
+    shapes = ["absent", "file", "dir", "dir+a", "dir+.c", "link", "ldir+a"]
     import itertools
     import random
-    allidx = sorted(sum(shapes.index(sh) * 6 ** i for i, sh in enumerate(t))
+    allidx = sorted(sum(shapes.index(sh) * 7 ** i for i, sh in enumerate(t))
                     for t in itertools.product(shapes, shapes, shapes, shapes, ["absent", "file", "dir+a"]))
     sel = allidx if R.tier != "quick" else sorted(random.Random(R.seed).sample(allidx, 400))
     res = R.tlc("GlobGen", "INIT Init\nNEXT Next\nINVARIANT Emit\nCONSTANT Sel <- MCSel\n", defs="MCSel == {%s}\n" % ", ".join(map(str, sel)),
